@@ -21,7 +21,7 @@ def profile(st):
 CHECK = SessionCheck(
     prop='C16', profile=profile,
     monitors=lambda: [Registry(), AccountMonitor(()), EquityMonitor(('C16',))],
-    tiers={'quick': 500, 'thorough': 40_000},
+    tiers={'quick': 500, 'thorough': 10_000},
     nontrivial=lambda r: r['counters'].get('c16_ratio_sets_checked', 0) > 0 or r['counters'].get('c16_equity_samples', 0) > 2,
     rule=('one seed -> one multi-day session (1-2 routes in every route/feed order, spot and futures, both simulators); at every '
           'daily-balance sample the appended value is compared with the equity of the reference account (futures: wallet + unrealised '
